@@ -626,12 +626,41 @@ def classify(ctx, v, trace, source, max_reports=5):
     ctx.stage("violations", scenarios=len(v["violations"]), cases_by_routine=ctx.cov["violating_cases_by_routine"])
 
 
+def window_signature(case, clog, ctxdir):
+    """Two cases with the same routine parameters, byte-identical directories before and after the save and the same
+    recorded calls (names, offsets, data) have the same crash scenarios and - recovery being a function of the
+    directory - the same recoveries: scenarios are generated and recovered once per signature."""
+    h = hashlib.md5()
+    h.update(json.dumps([case["routine"], {k: v for k, v in case.items() if k not in ("id", "ops", "routine")}], sort_keys=True).encode())
+    for sub in ("pre", "post"):
+        root = os.path.join(ctxdir, case["id"], sub)
+        files, dirs = listing(root)
+        h.update(json.dumps([sub, dirs]).encode())
+        for f in files:
+            h.update(f["name"].encode() + b"\0")
+            with open(os.path.join(root, f["name"]), "rb") as fh:
+                h.update(hashlib.md5(fh.read()).digest())
+    h.update(json.dumps(clog.events, sort_keys=True).encode())
+    h.update(json.dumps(clog.writes, sort_keys=True).encode())
+    return h.hexdigest()
+
+
 def pipeline(ctx, cases, kd, tag, fs_consts, strict=False, source="cases"):
     """cases -> (verdict, trace path, number of scenarios)"""
     ctxdir = ctx.path(f"{tag}_ctx")
     os.makedirs(ctxdir, exist_ok=True)
     logs = run_histories(ctx, cases, ctxdir, tag=tag)
-    scn, n, gen = gen_scenarios(ctx, cases, logs, strict, fs_consts, tag)
+    reps, seen = [], {}
+    for c in cases:
+        sig = window_signature(c, logs[c["id"]], ctxdir)
+        if sig in seen:
+            seen[sig].append(c["id"])
+        else:
+            seen[sig] = [c["id"]]
+            reps.append(c)
+    ctx.stage("windows", cases=len(cases), distinct_save_windows=len(reps))
+    ctx.cov.setdefault("distinct_save_windows", {})[tag] = len(reps)
+    scn, n, gen = gen_scenarios(ctx, reps, logs, strict, fs_consts, tag)
     trace = ctx.path(f"{tag}_trace.ndjson")
     d = run_recover(ctx, scn, ctxdir, trace)
     ctx.stage("recover", scenarios=d.get("programs"), events=d.get("events"), hangs=d.get("hangs"), wall_s=d["wall_s"])
@@ -737,22 +766,23 @@ def scenario_stats(scn_path, cases):
 
 def run(ctx):
     kd = known_findings(ctx)
-    lib.build(["drv_crash"])
+    ctx.stage("build", wall_s=round(lib.build(["drv_crash"]), 2))
     if ctx.replay:
         return replay(ctx, kd)
     consts = dict(FS_CONSTS, SampleSeed=ctx.seed % 100000)
     if ctx.quick:
         plan = [("lru", 4, 3, [{"cap": 4}]),
                 ("index", 3, 3, [{}]),
-                ("res", 4, 3, [{"nb": 1}]),
+                ("res", 4, 3, [{"nb": 1}, {"nb": 2}]),
                 ("disk", 3, 3, [{"subdirs": True}, {"subdirs": False}]),
                 ("journal", 4, 3, [{}])]
         nstrict = 2
     else:
         consts["SampleN"] = 40
-        plan = [("lru", 5, 3, [{"cap": 4}, {"cap": 1}]),
+        consts["FineLimit"] = 16384
+        plan = [("lru", 5, 3, [{"cap": 4}, {"cap": 1}, {"cap": 60}]),
                 ("index", 4, 3, [{}]),
-                ("res", 5, 3, [{"nb": 1}, {"nb": 3}]),
+                ("res", 5, 3, [{"nb": 1}, {"nb": 2}, {"nb": 3}]),
                 ("disk", 4, 3, [{"subdirs": True}, {"subdirs": False}]),
                 ("journal", 6, 3, [{}])]
         nstrict = 6
@@ -802,7 +832,40 @@ def run(ctx):
     return finish(ctx, **finish_args)
 
 
+def write_witnesses(ctx, trace):
+    """development aid (C06_WRITE_WITNESS=1): store one replayable witness per known finding under replay/"""
+    lines = lib.read_lines(trace)
+    hdr = None
+    best = {}
+    for l in lines:
+        e = json.loads(l)
+        if e["op"] == "new":
+            hdr = e
+            continue
+        if e["op"] != "recover":
+            continue
+        if hdr["routine"] == "lru" and not e["res"]["ok"] and hdr["old"]["proj"] != hdr["new"]["proj"] \
+                and '"len":0' not in hdr["old"]["proj"]["lru"]:
+            top = max(e["disk"], key=lambda f: f["gen"])
+            score = (hdr["ops"][-3:] == ["mut", "bump", "save"], len(e["disk"]) == 1, top["cls"] == "prefix", -abs(top["len"] - top["vlen"] // 2))
+            if "F06a" not in best or score > best["F06a"][0]:
+                best["F06a"] = (score, hdr, e)
+        if hdr["routine"] == "journal" and e["res"]["ok"] and e["res"]["proj"] not in (hdr["old"]["proj"], hdr["new"]["proj"]):
+            score = (-len(hdr["ops"]),)
+            if "F06b" not in best or score > best["F06b"][0]:
+                best["F06b"] = (score, hdr, e)
+    for fid, (_, h, e) in best.items():
+        lib.save_replay(ctx, f"{fid}_witness", {
+            "property": PROP, "finding": fid, "program": {"case": h["def"]},
+            "scenario": {"pos": e["pos"], "mode": e["mode"], "dirs": e["dirs"], "disk": e["disk"]},
+            "header": h, "offending_event": e,
+            "explanation": "witness of a known finding: the real recovery on this post-crash directory (derived by T_CrashFS from the real "
+                           "system calls of the save) fails or shows a state that is neither old nor new; only the listed deviation explains it"})
+
+
 def finish(ctx, n, nontrivial, distinct, gen, per_routine, v, cases, consts):
+    if os.environ.get("C06_WRITE_WITNESS") and os.path.exists(ctx.path("c_trace.ndjson")):
+        write_witnesses(ctx, ctx.path("c_trace.ndjson"))
     if os.environ.get("VERIF_KEEP") and os.path.exists(ctx.path("c_trace.ndjson")):   # development aid: lib.finish removes the work dir
         os.makedirs("/tmp/c06", exist_ok=True)
         shutil.copy(ctx.path("c_trace.ndjson"), "/tmp/c06/last_trace.ndjson")
